@@ -730,7 +730,7 @@ def c19(ctx):
     allfile = os.path.join(out, "all.jsonl")
     open(allfile, "w").write("\n".join(allp) + "\n")
     return det_run(ctx, "reg", "TestC19", "c19.ndjson", "c19.summary.json", "IsolationTrace", "IsolationTrace.cfg",
-                   {"VERIF_BEH": behfile, "VERIF_BEH_ALL": allfile, "VERIF_C19_RANDOM": 30 if quick else 4000, "VERIF_C19_BACKGROUND": 2 if quick else 12, "VERIF_C19_WIPERACE": 2 if quick else 12, "VERIF_OUT": out}, [], rule, "DMap isolation and Destroy",
+                   {"VERIF_BEH": behfile, "VERIF_BEH_ALL": allfile, "VERIF_C19_RANDOM": 30 if quick else 4000, "VERIF_C19_BACKGROUND": 2 if quick else 12, "VERIF_C19_WIPERACE": 2 if quick else 12, "VERIF_C19_FIRSTCONTACT": 4 if quick else 24, "VERIF_OUT": out}, [], rule, "DMap isolation and Destroy",
                    tags_of=lambda head, evs, line, msg: {"msg": msg})
 
 
